@@ -20,6 +20,8 @@ def _mentions(name: str):
 
 
 def run(ctx: Ctx) -> None:
+    if getattr(ctx, "_depth", 0) >= 2:
+        return  # alias of an alias: not followed (breaks import cycles between rule modules)
     repo = ctx.repo
     ctx.rule("C14.R1", "every path of worker_serve to a call that lets connections in (start_server, create_datagram_endpoint, serve_listeners, UDP server start, listen) passes `await lifespan.wait_for_startup()`; create_sockets too", floor=6)
     ctx.rule("C14.R2", "a failed startup aborts: asyncio re-raises the finished lifespan task's exception before creating servers; trio runs handle_lifespan in a nursery enclosing the servers; asgi_send raises LifespanFailureError for *.failed and handle_lifespan re-raises it", floor=8)
